@@ -136,7 +136,7 @@ def check(ctx, case):
 
 
 def part_logs(ctx):
-    n = 800 if ctx.tier == "quick" else 4000
+    n = 800 if ctx.tier == "quick" else 15000
     hyp_run(ctx, CASE, lambda c: check(ctx, c), n, name="logs")
 
 
